@@ -278,6 +278,10 @@ func mergeConfigReplaceArr(opts *options, to, from *Config) Error {
 	}
 	fields.append(parent, a)
 	*to.fields = fields
+	if from.metadata != nil && len(fields.d) == 0 {
+		// the list as a whole comes from the new operand now
+		to.metadata = from.metadata
+	}
 	return nil
 }
 
